@@ -4,22 +4,35 @@ space"): scalars are `F_q`, and all three groups are `F_q` too — a group eleme
 its discrete logarithm with respect to the fixed bases `B1`, `B2`, `e(B1, B2)` that the Rust
 harness uses.  `a • g = a * g`, `e a b = a * b`.
 
-Core Lean only.  Not part of any proof: the theorems are proved for *every* field / module /
-pairing, this file only provides the instance that is executed.
+Core Lean only.  The theorems are proved for *every* field / module / pairing; that this executed
+instance is one of them (`q` is prime, `Fq` with exactly these operations is a field, multiplication is
+a bilinear non-degenerate pairing) is proved in `Props/ExecInstance.lean`.  An `Fq` carries the proof
+that its representative is canonical (`v < q`; erased at run time), so `DecidableEq Fq` is equality
+in the field.
 -/
 namespace ZkVerif
 
 /-- Order of the BLS12-381 scalar field. -/
 def q : Nat := 0x73eda753299d7d483339d80809a1d80553bda402fffe5bfeffffffff00000001
 
+theorem q_pos : 0 < q := by decide
+theorem q_gt_one : 1 < q := by decide
+
 structure Fq where
   v : Nat
-deriving DecidableEq, Repr, Inhabited, Hashable
+  h : v < q
 
 namespace Fq
-def ofNat (n : Nat) : Fq := ⟨n % q⟩
-instance : Zero Fq := ⟨⟨0⟩⟩
-instance : One Fq := ⟨⟨1⟩⟩
+theorem ext {a b : Fq} (hv : a.v = b.v) : a = b := by
+  cases a; cases b; cases hv; rfl
+instance : DecidableEq Fq := fun a b =>
+  if hv : a.v = b.v then isTrue (ext hv) else isFalse (fun hab => hv (hab ▸ rfl))
+instance : Repr Fq := ⟨fun a p => reprPrec a.v p⟩
+instance : Inhabited Fq := ⟨⟨0, q_pos⟩⟩
+
+def ofNat (n : Nat) : Fq := ⟨n % q, Nat.mod_lt _ q_pos⟩
+instance : Zero Fq := ⟨⟨0, q_pos⟩⟩
+instance : One Fq := ⟨⟨1, q_gt_one⟩⟩
 instance : Add Fq := ⟨fun a b => ofNat (a.v + b.v)⟩
 instance : Mul Fq := ⟨fun a b => ofNat (a.v * b.v)⟩
 instance : Neg Fq := ⟨fun a => ofNat (q - a.v % q)⟩
@@ -29,7 +42,6 @@ instance : IntCast Fq := ⟨fun i => match i with
   | .ofNat n => ofNat n
   | .negSucc n => ofNat (q - (n + 1) % q)⟩
 instance : SMul Fq Fq := ⟨fun a b => a * b⟩
-instance {n : Nat} : OfNat Fq n := ⟨ofNat n⟩
 
 /-- The pairing on discrete logarithms. -/
 def e (a b : Fq) : Fq := a * b
